@@ -15,6 +15,7 @@ import (
 	"verifharness/drv/c15"
 	"verifharness/drv/c16"
 	"verifharness/drv/c17"
+	"verifharness/drv/c18"
 	"verifharness/drv/c19"
 	"verifharness/drv/c20"
 	"verifharness/drv/wire"
@@ -65,6 +66,8 @@ func main() {
 		c06.Run(os.Args[2], os.Args[3])
 	case "c03":
 		c03.Run(os.Args[2], os.Args[3])
+	case "c18":
+		c18.Run(os.Args[2], os.Args[3])
 	case "c19x":
 		a := os.Args
 		c19.Explicit(a[2], a[3], atoi(a[4]), atoi(a[5]), atoi(a[6]), a[7] == "1")
